@@ -72,6 +72,7 @@ func (sg *scenGen) genCfg() {
 	c.MapOrder = r.Intn(simrt.NumMapPolicies)
 	c.Scribble = r.P(500)
 	c.ScribbleResults = r.P(300)
+	c.ReuseBuf = r.P(350)
 	c.SpareCap = r.P(500)
 	c.Warm = r.P(700)
 	// package defaults set once at start-up (the only configuration the legacy package has)
